@@ -180,7 +180,10 @@ DISPENSO_REQUIRES(ForEachFunc<F, Iter>)
 void for_each_n(TaskSetT& tasks, Iter start, size_t n, F&& f, ForEachOptions options = {}) {
   // TODO(bbudge): With options.maxThreads, we might want to allow a small fanout factor in
   // recursive case?
-  if (!n || !options.maxThreads || detail::PerPoolPerThreadInfo::isParForRecursive(&tasks.pool())) {
+  // A pool without threads runs everything on the caller anyway; with wait == false it would
+  // otherwise reach the chunking arithmetic below with zero threads (division by zero).
+  if (!n || !options.maxThreads || tasks.numPoolThreads() == 0 ||
+      detail::PerPoolPerThreadInfo::isParForRecursive(&tasks.pool())) {
     for (size_t i = 0; i < n; ++i) {
       f(*start);
       ++start;
